@@ -448,7 +448,14 @@ def run_table(chk, pid, pool, T, expected, IMPORTS, in_ty="Z", ncase=None, maxle
             inst = gen(chk.rng)
             ins = (gen_inputs or k2.gen_inputs)(chk.rng, inst.get("pool", pool), maxlen=maxlen)
             snapshot = inst.get("snapshot")
-            res = k2.run_hot(lambda s: s.pipe(inst["py"]), ins)
+            warm = None
+            if chk.rng.random() < 0.4:
+                ip = inst.get("pool", pool)
+                warm = ([("N", chk.rng.choice(ip.values)) for _ in range(chk.rng.choice([1, 2, 3]))]
+                        + chk.rng.choice([[], [("E", k2.UserError(14))], [("C",)]])) if hasattr(ip, "values") and not hasattr(ip, "_ids") \
+                    else k2.gen_warmup(chk.rng, ip)
+                term_hist["resubscribed"] = term_hist.get("resubscribed", 0) + 1
+            res = k2.run_hot(lambda s: s.pipe(inst["py"]), ins, warmup=warm)
             chk.cov["evaluations"] += 1
             per_op[name] += 1
             if res["build_error"] is not None:
